@@ -8,6 +8,7 @@ use std::io::{BufRead, Write};
 use std::panic::{catch_unwind, AssertUnwindSafe};
 
 mod val;
+mod rich;
 mod ops;
 
 fn main() {
